@@ -234,6 +234,30 @@ def run(ctx):
         visited = {}
         for s in b.sites:
             visited.setdefault(s.field, []).append(s)
+        # ... and only children are visited: what the class keeps in a field its printers treat as plain data (the text of an INTERVAL) is not a node; the
+        # visitor would be called with a str, and whatever it returns would be stored inside the node
+        own_fields = set(model.self_fields(ci))
+        STR_ONLY = {'split', 'rsplit', 'strip', 'lstrip', 'rstrip', 'lower', 'upper', 'startswith', 'endswith', 'replace', 'splitlines', 'title', 'capitalize', 'isdigit',
+                    'format', 'encode'}
+        text_fields = set()
+        for c2 in model.mro(ci):
+            for mname in ('get_string', 'to_string', 'to_tree'):
+                pm = c2.node and next((m_ for m_ in c2.node.body if isinstance(m_, ast.FunctionDef) and m_.name == mname), None)
+                if not pm or c2 is not next((c3 for c3 in model.mro(ci) if mname in c3.methods), None):
+                    continue        # only the definition this class really uses
+                fu_ = FieldUse(pm, 'self', model, ci)
+                for n_ in ast.walk(pm):
+                    if isinstance(n_, ast.Call) and isinstance(n_.func, ast.Attribute) and n_.func.attr in STR_ONLY:
+                        src_ = fu_.field_of(n_.func.value)
+                        if src_ is not None:
+                            text_fields.add(src_[0])
+        for f in sorted(set(visited) & own_fields & text_fields):
+            if f in cf or exempt(ci.name, f):
+                continue
+            ctx.ob('C13.visit-only-children', f'{ci.name}.{f}', False,
+                   f'{ci.name} reaches the {"/".join(b.classes)} branch of query_traversal, which visits `{f}`; the printers of {ci.name} use `{f}` as plain data (no node '
+                   f'method is called on it): the visitor is called with a value that is not a node, and its return value is stored in the node',
+                   file=w.file, line=visited[f][0].call.lineno, witness="select interval '1 day'")
         for f in sorted(sem):
             ctx.ob('C13.field-unvisited', f'{ci.name}.{f}', f in visited,
                    f'{ci.name}.{f} holds child node(s) (its printers call node methods on it) but the '
@@ -241,6 +265,7 @@ def run(ctx):
                    f'there are invisible to every analysis built on the walker',
                    file=w.file, line=b.lineno, witness=WITNESS.get((ci.name, f)))
     ctx.setcount('child_field_pairs', pairs)
+    ctx.ob('C13.visit-only-children', 'all', True, '')
     # -- the renderer reads only fields the walker maintains: a child node the renderer takes from a field that query_traversal never visits is not replaced
     # when a visitor (the planner) replaces that child in the field the printers use - the rendered statement still contains the old sub-tree
     RENDER = 'mindsdb_sql/render/sqlalchemy_render.py'
